@@ -186,16 +186,42 @@ where
             {
                 let mut builder: GreenNodeBuilder<S> = GreenNodeBuilder::new();
                 let mut data_indices = VecDeque::new();
+                // The events must describe exactly one well-nested tree. Anything else would make the builder
+                // panic or silently drop unfinished nodes, so it is rejected with an error here.
+                let invalid = || A::Error::custom("invalid serialized tree: events do not describe exactly one tree");
+                let mut depth = 0usize;
+                let mut has_root = false;
 
                 while let Some(next) = seq.next_element::<Event<'_>>()? {
                     match next {
                         Event::EnterNode(kind, has_data) => {
+                            if depth == 0 {
+                                if has_root {
+                                    return Err(invalid());
+                                }
+                                has_root = true;
+                            }
+                            depth += 1;
                             builder.start_node(S::from_raw(kind));
                             data_indices.push_back(has_data);
                         }
-                        Event::Token(kind, text) => builder.token(S::from_raw(kind), &text),
-                        Event::LeaveNode => builder.finish_node(),
+                        Event::Token(kind, text) => {
+                            if depth == 0 {
+                                return Err(invalid());
+                            }
+                            builder.token(S::from_raw(kind), &text)
+                        }
+                        Event::LeaveNode => {
+                            if depth == 0 {
+                                return Err(invalid());
+                            }
+                            depth -= 1;
+                            builder.finish_node()
+                        }
                     }
+                }
+                if depth != 0 || !has_root {
+                    return Err(invalid());
                 }
 
                 let (tree, cache) = builder.finish();
